@@ -17,10 +17,10 @@ import (
 
 func init() {
 	seqChecks["c08"] = &seqCheck{run: runC08, replay: replayC08,
-		rule: "every sequence of <=3 (4 thorough) event calls over 13 actions x apply handler {absent, ok, error, no-change} x listeners {none, same pattern, other handler's Listeners map with one or three entries, mounted mux, two listeners, a listener emitting a nested event} x type {model, collection, unset} x context {call handler, With callback}; one global log fed by apply handlers, connection and listeners is compared with the reference log; distinct = distinct (case, log) pairs"}
+		rule: "every sequence of <=3 (4 thorough) event calls over 15 actions x apply handler {absent, ok, error, no-change} x listeners {none, same pattern, other handler's Listeners map with one or three entries, mounted mux, two listeners, a listener emitting a nested event} x type {model, collection, unset} x context {call handler, With callback}; one global log fed by apply handlers, connection and listeners is compared with the reference log; distinct = distinct (case, log) pairs"}
 }
 
-var c08Actions = []string{"change", "changeEmpty", "add0", "addNeg", "remove0", "removeNeg", "create", "delete", "custom", "evChange", "evDotted", "timeout", "reply"}
+var c08Actions = []string{"change", "changeEmpty", "add0", "addNeg", "remove0", "removeNeg", "create", "delete", "custom", "customNil", "evChange", "evDotted", "evEmpty", "timeout", "reply"}
 var c08Apply = []string{"absent", "ok", "error", "nochange"}
 var c08Lis = []string{"none", "same", "other", "othermap", "mounted", "two", "nested"}
 var c08Types = []string{"model", "collection", "unset"}
@@ -152,7 +152,11 @@ func c08Reference(c c08Case, rname string) []string {
 		case "custom":
 			log = append(log, "pub "+ev+`custom {"p":1}`)
 			listeners(`custom payload={"p":1}`)
-		case "evChange", "evDotted":
+		case "customNil":
+			// a custom event without payload is published (empty payload) and handed to the listeners
+			log = append(log, "pub "+ev+"ping ")
+			listeners(`ping payload=null`)
+		case "evChange", "evDotted", "evEmpty":
 			failed = true
 		case "timeout":
 			if c.Ctx == "call" {
@@ -298,6 +302,10 @@ func c08Run(c c08Case) (log []string, rname string, problems []string) {
 				r.Event("change", nil)
 			case "evDotted":
 				r.Event("a.b", nil)
+			case "evEmpty":
+				r.Event("", map[string]int{"p": 1})
+			case "customNil":
+				r.Event("ping", nil)
 			case "timeout":
 				if cr != nil {
 					cr.Timeout(2 * time.Second)
